@@ -44,7 +44,7 @@ pub fn tamper_cases(tier: &str, seed: u64) -> Vec<Case> {
     for mode in ["key", "pass"] {
         for &plen in &[0usize, 13, 65536, 65537, 140000] {
             let n = if th { 60 } else { 14 };
-            for _ in 0..n { v.push(case(&[("kind", "api".into()), ("mode", mode.into()), ("plen", plen.to_string()), ("m", rng.below(12).to_string()), ("seed", rng.next().to_string())])); }
+            for _ in 0..n { v.push(case(&[("kind", "api".into()), ("mode", mode.into()), ("plen", plen.to_string()), ("m", rng.below(13).to_string()), ("seed", rng.next().to_string())])); }
         }
     }
     v
@@ -88,6 +88,7 @@ fn api_tamper(c: &Case) -> (Vec<u8>, Vec<u8>, Vec<u8>, Vec<u8>, Vec<u8>, String,
         8 => { if keym { t[36..84].copy_from_slice(&f2[36..84]); "enc-static-of-other-file".into() } else { t[hdr + 8..hdr + 12].copy_from_slice(&[0, 0, 0, 2]); "flag=2".into() } }
         9 => { if keym { t[84..132].copy_from_slice(&f2[84..132]); "enc-payload-of-other-file".into() } else { t[hdr + 12..hdr + 16].copy_from_slice(&0xffff_ffffu32.to_be_bytes()); "len=ffffffff".into() } }
         10 => { if f.len() > hdr + 65536 + 64 { let r0 = f[hdr..hdr + 65536 + 32].to_vec(); let mut x = f[..hdr].to_vec(); x.extend_from_slice(&f[hdr + 65536 + 32..]); x.extend_from_slice(&r0); t = x; "rotate-records".into() } else { t.extend_from_slice(&f[hdr..]); "duplicate-body".into() } }
+        12 => { if f.len() > hdr + 65536 + 64 { let l: u32 = *rng.pick(&[2u32, 0x8000_0000, 0x100, 3]); t.truncate(hdr + 65536 + 32); t[hdr + 8..hdr + 12].copy_from_slice(&l.to_be_bytes()); format!("cut-after-record0+flag={:x}", l) } else { t.truncate(f.len() - 1); "trunc-1".into() } }
         _ => { t[hdr..hdr + 8].copy_from_slice(&0xdeadbeefu64.to_be_bytes()); co = true; "counter0".into() }
     };
     (f, p, rk, rpk, t, label, co)
@@ -169,9 +170,9 @@ const RULE: &str = "hook-built authentic streams with chunk size in {1,2,4} and 
 
 impl Prop for C03 {
     fn id(&self) -> &'static str { "C03" }
-    fn rule(&self) -> String { format!("{}; oracle: accepted => equals the authentic stream outside counter fields and output = plaintext; model accept/reject and output compared", RULE) }
-    fn cases(&self, tier: &str, seed: u64) -> Vec<Case> { tamper_cases(tier, seed) }
-    fn run(&self, c: &Case, m: &mut Model) -> Outcome { run_tamper(c, m, false) }
+    fn rule(&self) -> String { format!("{}; oracle: accepted => equals the authentic stream outside counter fields and output = plaintext; model accept/reject and output compared; plus the real binary (both modes, -o and stdout) on intact, extended, corrupted, truncated and flag-cleared two-chunk files: exit 0 only for the intact file with the complete plaintext", RULE) }
+    fn cases(&self, tier: &str, seed: u64) -> Vec<Case> { let mut v = tamper_cases(tier, seed); v.extend(c04_cli_cases(tier, seed ^ 3)); v }
+    fn run(&self, c: &Case, m: &mut Model) -> Outcome { if get(c, "kind") == "cli" { run_c04_cli(c, m) } else { run_tamper(c, m, false) } }
 }
 fn c04_cli_cases(tier: &str, seed: u64) -> Vec<Case> {
     let mut rng = Rng::new(seed ^ 0xC04C);
